@@ -357,6 +357,118 @@ pub fn slice_c_run<S: Sch>(rec: &mut Rec) {
     }
 }
 
+
+/// Slice E: size ladder.  One polynomial, one point, at sizes well above the exhaustive slices: around every
+/// power of two up to 128 (256 / 512 in the thorough tier), the key either exactly as large as the polynomial or a
+/// little larger, with and without degree bound and hiding.  A handful of shapes per size (full degree, one below,
+/// half, low zero, top monomial only, non-normalised).  This is what reaches size thresholds in the code
+/// (chunking, windowing, buffer lengths) that the small grids cannot.
+pub fn ladder_sizes(thorough: bool) -> Vec<usize> {
+    let mut v = vec![15usize, 16, 17, 31, 32, 33, 63, 64, 65, 127, 128, 129];
+    if thorough {
+        v.extend([255, 256, 257, 511, 512, 513]);
+    }
+    v
+}
+
+pub fn slice_e_run<S: Sch>(rec: &mut Rec) {
+    let mut cfgs: Vec<KeyCfg> = Vec::new();
+    match S::FAM {
+        Fam::Uni => {
+            if S::NAME == "LIG" {
+                return;
+            }
+            for s in ladder_sizes(rec.thorough()) {
+                if S::NAME == "IPA" {
+                    if (s + 1).is_power_of_two() {
+                        cfgs.push(KeyCfg::uni(s, s, 1, None));
+                        cfgs.push(KeyCfg::uni(2 * s + 1, s, 1, None));
+                    }
+                } else if S::BOUNDS {
+                    cfgs.push(KeyCfg::uni(s, s, 2, Some(vec![s / 2, s])));
+                    cfgs.push(KeyCfg::uni(s + 3, s, 2, Some(vec![s, s / 2])));
+                } else {
+                    cfgs.push(KeyCfg::uni(s, s, 2, None));
+                }
+            }
+        }
+        Fam::Ml => {
+            if S::NAME == "HYR" {
+                for nv in if rec.thorough() { vec![6usize, 8, 10] } else { vec![6usize, 8] } {
+                    cfgs.push(KeyCfg::ml(nv));
+                }
+            } else {
+                return;
+            }
+        }
+        Fam::Mv => {
+            for (nv, d) in if rec.thorough() { vec![(2usize, 8usize), (3, 5), (4, 4), (5, 3), (6, 2), (2, 12)] } else { vec![(2usize, 8usize), (3, 5), (4, 4), (6, 2)] } {
+                cfgs.push(KeyCfg::mv(nv, d, d));
+                cfgs.push(KeyCfg::mv(nv, d, d - 1));
+            }
+        }
+    }
+    rec.scope(format!("{}: slice E (size ladder), {} key configurations: {}", S::NAME, cfgs.len(), cfgs.iter().map(|c| c.id()).collect::<Vec<_>>().join(" ")));
+    for cfg in cfgs {
+        let s = cfg.sup;
+        let keep: Vec<String> = match S::FAM {
+            Fam::Uni => vec![format!("dense({})", s), format!("dense({})", s - 1), format!("dense({})", s / 2), format!("lowzero({})", s), format!("top({})", s), format!("padded({})", s - 1)],
+            Fam::Ml => vec!["dense".into(), "e1".into(), "const".into()],
+            Fam::Mv => vec!["dense".into()],
+        };
+        let mut shapes: Vec<(String, S::P)> = S::shapes(&cfg, rec.seed).into_iter().filter(|(n, _)| keep.contains(n)).collect();
+        if S::FAM == Fam::Mv {
+            // plus the monomials of full total degree (pure and mixed)
+            let all = S::shapes(&cfg, rec.seed);
+            let full: Vec<(String, S::P)> = all.into_iter().filter(|(n, p)| n.starts_with("mono") && S::degree(p) == s).collect();
+            let k = full.len();
+            for (i, x) in full.into_iter().enumerate() {
+                if i == 0 || i == k - 1 || i == k / 2 || i == k / 3 {
+                    shapes.push(x);
+                }
+            }
+        }
+        let pts: Vec<_> = S::points(&cfg, rec.seed);
+        let mut todo = Vec::new();
+        for (sname, p) in shapes.iter() {
+            let deg = S::degree(p);
+            for (b, h) in lp_options::<S>(&cfg, deg, false) {
+                if S::NAME == "IPA" {
+                    // IPA serves every bound: keep the extremes and one interior value
+                    if let Some(d) = b {
+                        if d != deg && d != s && d != (deg + s) / 2 {
+                            continue;
+                        }
+                    }
+                }
+                for (zn, z) in pts.iter().take(2) {
+                    let id = format!("{}/E/{}/{}/b={:?}/h={:?}/z={}", S::NAME, cfg.id(), sname, b, h, zn);
+                    if rec.take(&id) {
+                        todo.push((id, sname.clone(), p.clone(), b, h, z.clone()));
+                    }
+                }
+            }
+        }
+        if todo.is_empty() {
+            continue;
+        }
+        let keys = match build_keys::<S>(&cfg, rec.seed) {
+            Ok(k) => k,
+            Err(o) => {
+                let first = todo[0].0.clone();
+                fail(rec, S::NAME, "trim", "valid-config", &first, format!("setup/trim of a valid configuration failed: {}", o.short()));
+                continue;
+            }
+        };
+        rec.op(2);
+        for (id, sname, p, b, h, z) in todo {
+            rec.dim("scheme", S::NAME);
+            rec.dim("slice", "E");
+            single_point::<S>(rec, &keys, &id, lp::<S>("p", p, b, h), &sname, &z, 0);
+        }
+    }
+}
+
 /// Univariate Ligero: polynomials of different sizes (different column counts; equal column counts
 /// with different row counts) opened by ONE open / check call and by a one-label batch, every ordered pair.
 pub fn lig_one_call(rec: &mut Rec) {
@@ -409,6 +521,7 @@ pub fn run(rec: &mut Rec) {
         slice_a_run::<S>(rec, if S::NAME == "IPA" { if rec.thorough() { 15 } else { 7 } } else { dmax });
         slice_b_run::<S>(rec);
         slice_c_run::<S>(rec);
+        slice_e_run::<S>(rec);
     });
     if rec.thorough() {
         slice_a_run::<SMar377>(rec, 3);
@@ -419,4 +532,5 @@ pub fn run(rec: &mut Rec) {
     slice_d_run::<SIpa>(rec);
     lig_one_call(rec);
     crate::special::c01_special(rec);
+    crate::special::c01_special_ladder(rec);
 }
